@@ -238,7 +238,13 @@ class Program:
         if not pkg_dir.is_dir():
             raise AnalysisError(f"package directory missing: {pkg_dir}")
         self.modules: dict[str, Module] = {}
+        # identifiers of every file: a public class whose name no other file of the package mentions is as private to its
+        # module as one spelled with an underscore (sa/flatten.py)
+        import re as _re
+
+        idents = {p: set(_re.findall(r"[A-Za-z_]\w*", p.read_text())) for p in sorted(pkg_dir.rglob("*.py"))}
         for p in sorted(pkg_dir.rglob("*.py")):
+            foreign = set().union(*[v for q, v in idents.items() if q != p]) if len(idents) > 1 else set()
             rel = p.relative_to(self.src_root)
             parts = list(rel.with_suffix("").parts)
             is_pkg = parts[-1] == "__init__"
@@ -250,11 +256,11 @@ class Program:
                 from .desugar import desugar
 
                 tree = desugar(ast.parse(src, filename=str(p)))
-                if any(isinstance(n, ast.ClassDef) and n.name.startswith("_") and not n.name.startswith("__") for n in tree.body):
+                if any(isinstance(n, ast.ClassDef) and not n.name.startswith("__") and (n.name.startswith("_") or n.name not in foreign) for n in tree.body):
                     from .flatten import flatten_collaborators, flatten_local_instances
 
-                    flatten_collaborators(tree)
-                    flatten_local_instances(tree)
+                    flatten_collaborators(tree, foreign)
+                    flatten_local_instances(tree, foreign)
             except SyntaxError as err:
                 raise AnalysisError(f"cannot parse {p}: {err}") from err
             m = Module(
